@@ -515,3 +515,57 @@ func corrLexer(c *hc.Ctx) {
 		c.Distinct("lx" + s)
 	}
 }
+
+// genPathCoincident builds 2-5 subpaths whose MoveTo targets coincide with points the printer's or
+// the parser's pen bookkeeping could confuse: the current point (end of the preceding open subpath,
+// or the start of the preceding closed one), the start of the previous subpath, the start of an
+// earlier subpath — several times in a row.  A shorthand that omits or reuses a MoveTo wrongly fuses
+// or splits subpaths here.
+func genPathCoincident(c *hc.Ctx, kinds string, coord func() float64) *canvas.Path {
+	p := &canvas.Path{}
+	ns := 2 + c.Intn(4)
+	var starts []canvas.Point
+	for s := 0; s < ns; s++ {
+		x, y := coord(), coord()
+		if s > 0 {
+			switch c.Intn(6) {
+			case 0, 1, 2: // the current point: end of an open subpath / start of the closed one
+				x, y = p.Pos().X, p.Pos().Y
+				c.Count("moveto:onto-current-point")
+			case 3: // start of the previous subpath
+				x, y = starts[len(starts)-1].X, starts[len(starts)-1].Y
+				c.Count("moveto:onto-previous-start")
+			case 4: // start of some earlier subpath
+				q := starts[c.Intn(len(starts))]
+				x, y = q.X, q.Y
+				c.Count("moveto:onto-earlier-start")
+			}
+		}
+		if c.Chance(0.25) && len(p.Data()) > 0 && p.Data()[len(p.Data())-1] == canvas.CloseCmd {
+			// continue after Close without an explicit MoveTo (the builder inserts it)
+			c.Count("moveto:implicit-after-close")
+		} else {
+			p.MoveTo(x, y)
+		}
+		starts = append(starts, p.Pos())
+		n := 1 + c.Intn(3)
+		for i := 0; i < n; i++ {
+			switch kinds[c.Intn(len(kinds))] {
+			case 'Q':
+				p.QuadTo(coord(), coord(), coord(), coord())
+			case 'C':
+				p.CubeTo(coord(), coord(), coord(), coord(), coord(), coord())
+			case 'A':
+				x, y := coord(), coord()
+				chord := math.Hypot(x-p.Pos().X, y-p.Pos().Y)
+				p.ArcTo((chord+1e-3)*c.Range(0.4, 3), (chord+1e-3)*c.Range(0.4, 3), c.Range(0, 360), c.Bool(), c.Bool(), x, y)
+			default:
+				p.LineTo(coord(), coord())
+			}
+		}
+		if c.Chance(0.5) {
+			p.Close()
+		}
+	}
+	return p
+}
